@@ -113,7 +113,7 @@ func (f *Formatter) formatIncludeStatement(stmt *ast.IncludeStatement) string {
 
 	buf.Reset()
 	buf.WriteString("include ")
-	buf.WriteString(stmt.Module.String())
+	buf.WriteString(f.formatPropertyValue(stmt.Module))
 	buf.WriteString(";")
 
 	return buf.String()
